@@ -6,7 +6,7 @@ Local Open Scope string_scope.
 Local Open Scope Z_scope.
 Definition alias_scoped_f : bool := true.
 Definition schema_aia_f : bool := false.
-Definition schema_drops_view_f : bool := false.
+Definition schema_drops_view_f : bool := true.
 Definition wrap_needed_f (new_op last_op : Z) : bool := ((Z.ltb new_op last_op) || ((Z.eqb last_op new_op) && (Z.eqb new_op (5)))).
 Definition gen_cfg : cfg := mkCfg alias_scoped_f schema_aia_f schema_drops_view_f (-1) (0) (1) (2) (5) wrap_needed_f.
 Definition op_noop_value : Z := (0).
@@ -50,3 +50,6 @@ Definition registry_accesses : list (string * string * string) := [
   ("normalize.replace_branch_and_sequence_ids_with_cte_name", "known_branch_ids", "member");
   ("normalize.replace_branch_and_sequence_ids_with_cte_name", "known_ids", "member")
 ].
+Definition set_iterations : list string := [].
+Definition session_accessors : list (string * string) := [("_BaseSession.execution_dialect_name", "property"); ("_BaseSession.read", "property"); ("_BaseSession.catalog", "cached_property"); ("_BaseSession._conn", "property"); ("_BaseSession._cur", "cached_property"); ("_BaseSession.default_time_format", "property"); ("_BaseSession._has_connection", "property"); ("_BaseSession.udf", "property"); ("_BaseSession._auto_incrementing_name", "property"); ("_BaseSession._random_branch_id", "property"); ("_BaseSession._random_sequence_id", "property"); ("_BaseSession._random_id", "property"); ("_BaseSession._join_hint_names", "property"); ("_BaseSession._is_bigquery", "property"); ("_BaseSession._is_databricks", "property"); ("_BaseSession._is_duckdb", "property"); ("_BaseSession._is_postgres", "property"); ("_BaseSession._is_redshift", "property"); ("_BaseSession._is_snowflake", "property"); ("_BaseSession._is_spark", "property"); ("_BaseSession._is_standalone", "property"); ("DuckDBSession._cur", "cached_property"); ("DuckDBSession._is_duckdb", "property")].
+Definition inplace_builder_calls : list string := [].
